@@ -226,7 +226,7 @@ package ro
 //@   const bufferSize
 
 //@ func (*replaySubjectImpl).NextWithContext
-//@   props C01 C02 C10 C13
+//@   props C01 C02 C10 C11 C13
 //@   ensures [one-critical-section|C10,C13] count(lock.mu) == 1
 //@   requires s.bufferSize >= -1
 //@   inline (*replaySubjectImpl).broadcastNext
@@ -234,6 +234,7 @@ package ro
 //@   ensures [open-broadcasts-to-all|C01,C10] atlock(status) == 0 ==> called(elem.NextWithContext) && arg(elem.NextWithContext, 0) == ctx && arg(elem.NextWithContext, 1) == value
 //@   ensures [open-appends-when-room|C10] atlock(status) == 0 && (s.bufferSize == -1 || len(atlock(values)) + 1 <= s.bufferSize) ==> len(atunlock(values)) == len(atlock(values)) + 1 && atunlock(values)[len(atlock(values))].A == ctx && atunlock(values)[len(atlock(values))].B == value && forall(j, 0, len(atlock(values)), atunlock(values)[j] == atlock(values)[j])
 //@   ensures [open-keeps-last-n-when-full|C10] atlock(status) == 0 && s.bufferSize != -1 && s.bufferSize >= 1 && len(atlock(values)) + 1 > s.bufferSize ==> len(atunlock(values)) == s.bufferSize && atunlock(values)[s.bufferSize - 1].A == ctx && atunlock(values)[s.bufferSize - 1].B == value && forall(j, 0, s.bufferSize - 1, atunlock(values)[j] == atlock(values)[j + len(atlock(values)) + 1 - s.bufferSize])
+//@   ensures [a-buffer-of-size-zero-keeps-nothing|C10,C11] atlock(status) == 0 && s.bufferSize == 0 ==> len(atunlock(values)) == 0
 //@   ensures [closed-drops|C01,C10] atlock(status) != 0 ==> trace(call.NewNotificationNext(value), hook.OnDroppedNotification(ctx, _))
 //@   ensures [broadcast-under-lock|C02,C10,C13] heldat(mu, elem.NextWithContext)
 //@   ensures [status-unchanged|C10] atunlock(status) == atlock(status)
